@@ -52,7 +52,7 @@ JudgeRemove(e) ==
 
 (* group fork switch: the observed stores are what remove-down-to-ancestor + adds give *)
 JudgeFork(e) ==
-  LET exp == IF store[e.g].present THEN ForkPost(store, hidx, count, last, e.g, e.ids)
+  LET exp == IF store[e.g].present THEN ForkPostP(store, hidx, count, last, e.g, e.ids, e.pres)
              ELSE [store |-> store, hidx |-> hidx, count |-> count, last |-> last]
   IN Tag(store' = exp.store, "Fork.store") \o Tag(hidx' = exp.hidx, "Fork.hidx") \o
      Tag(count' = exp.count, "Fork.count") \o Tag(last' = exp.last, "Fork.last")
@@ -89,6 +89,9 @@ Judge(e) ==
      [] e.event = "Restart" -> JudgeRestart(e)
      [] e.event = "Fork"    -> JudgeFork(e)
      [] e.event = "Conc"    -> JudgeConc(e)
+     [] e.event = "Readers" -> (* lookups from several goroutines at once, no writer *)
+                               Tag(e.mismatches = 0, "Inv.ConcurrentLookupsAgree") \o
+                               Tag(<<store', hidx', count', last'>> = <<store, hidx, count, last>>, "Readers.changed")
      [] e.event = "Reset"   -> <<>>
      [] OTHER               -> <<"unknown-event">>) \o JudgeInv(e)
 
